@@ -8,7 +8,7 @@ import z3
 
 from .types import (T, INT, BOOL, BYTES, STR, NONE, ANY, OPT, LIST, SET, MAP, TUPLE, CLS, Outside, to_sort, opt_sort,
                     tuple_sort, from_annotation, BYTES_SORT, BV8)
-from .engine import (Engine, V, Ref, HeapObj, ExcVal, Raised, Closure, BoundMethod, BuiltinMethod, LocalClass, GhostNS,
+from .engine import (RangeV, IterV, Engine, V, Ref, HeapObj, ExcVal, Raised, Closure, BoundMethod, BuiltinMethod, LocalClass, GhostNS,
                      Frame, State, is_concrete, bytes_term)
 
 
@@ -515,6 +515,15 @@ class Interp(Engine):
                 container = h.val
             else:
                 raise Outside("`in` on object")
+        if isinstance(container, RangeV):
+            if not (is_concrete(container.step) and container.step == 1):
+                raise Outside("`in` on a stepped range")
+            xt = self.term(x, INT)
+            return z3.And(self.term(container.lo, INT) <= xt, xt < self.term(container.hi, INT))
+        if isinstance(container, IterV):
+            if container.kind == 'keys':
+                return self.contains(container.base, x, st)
+            raise Outside("`in` on a %s view" % container.kind)
         if isinstance(container, (list, tuple)):
             return self._or([self.py_eq(x, c, st) for c in container])
         if isinstance(container, dict):
@@ -961,7 +970,23 @@ class Interp(Engine):
                 except IndexError:
                     yield st, Raised(ExcVal(IndexError))
                 return
-            raise Outside("symbolic index into python tuple")
+            # concrete tuple/list, symbolic index: ite chain over the positions (negative indices wrap as in python)
+            n = len(v)
+            kt = self.term(k, INT)
+            if st.spec:
+                raise Outside("symbolic index into python tuple in a specification")
+            for s2, ok in self.branch(st, z3.And(kt >= -n, kt < n), "L%s:idx?" % line):
+                if not ok:
+                    yield s2, Raised(ExcVal(IndexError, origin=line))
+                    continue
+                idx = z3.If(kt < 0, kt + n, kt)
+                lifted = [self.lift(x, s2) for x in v]
+                r = lifted[-1]
+                t = r.t
+                for j in range(n - 2, -1, -1):
+                    t = z3.If(idx == j, self.term(lifted[j], r.ty, s2), t)
+                yield s2, V(t, r.ty)
+            return
         if is_concrete(v) and is_concrete(k):
             try:
                 yield st, v[k]
